@@ -23,7 +23,7 @@ type c8Member struct {
 
 func c08Run(w *W) {
 	topo := []string{"bus-mesh", "bus-chain-cooked", "bus-device", "star", "star-tree"}[w.Choose(simrt.SShape, 5)]
-	tran := []string{"inproc", "sim"}[w.Choose(simrt.SShape, 2)]
+	tran := []string{"inproc", "sim", "tcp", "ipc", "tls+tcp"}[w.Choose(simrt.SShape, 5)]
 	n := 2 + w.Choose(simrt.SShape, 3)
 	nmsg := 1 + w.Choose(simrt.SShape, 6)
 	ntask := 1 + w.Choose(simrt.SShape, 2)
@@ -42,7 +42,7 @@ func c08Run(w *W) {
 		// enough traffic to overflow the 128-deep send queue towards the member
 		// that never reads, over a transport that exerts back-pressure
 		nmsg, ntask = 50, 2
-		if tran == "sim" {
+		if tran != "inproc" {
 			w.UseNet(NetCfg{BufCap: 64})
 		}
 	}
@@ -93,7 +93,7 @@ func c08Run(w *W) {
 		if m.addr == "" {
 			m.addr = w.Addr(tran)
 		}
-		l, err := m.s.NewListener(m.addr, nil)
+		l, err := m.s.NewListener(m.addr, w.EpOpts(m.addr, true, nil))
 		if err == nil {
 			err = l.Listen()
 		}
@@ -109,13 +109,13 @@ func c08Run(w *W) {
 			// accepted but not yet attached)
 			w.Settle()
 			_ = listeners[to].Close()
-			if err := m.s.Dial(to.addr); err == nil {
+			if err := w.DialOn(m.s, to.addr); err == nil {
 				w.Failf("HARNESS/early-dial", "Dial to %s succeeded although nobody listens", to.addr)
 			}
 			listen(to)
 			w.Probe("dial-before-listen")
 		}
-		if err := m.s.Dial(to.addr); err != nil {
+		if err := w.DialOn(m.s, to.addr); err != nil {
 			w.Failf("HARNESS/dial", "%v", err)
 		}
 	}
@@ -212,7 +212,7 @@ func c08Run(w *W) {
 			p := dialled[w.Choose(simrt.SProg, len(dialled))]
 			w.Op("link %s (pipe %x) is lost", p.Address(), p.ID())
 			w.Fault("close")
-			if tran == "sim" && w.Choose(simrt.SProg, 2) == 0 {
+			if tran != "inproc" && w.Choose(simrt.SProg, 2) == 0 {
 				resetSomeConn(w, "")
 			} else {
 				_ = p.Close()
